@@ -98,8 +98,16 @@ func (r *Reader) ReadPacketUsing(buf []byte) (pkt Packet, err error) {
 			return Packet{}, drpc.ProtocolError.Wrap(err)
 
 		case !ok:
-			// r.curr doesn't have enough data for a full frame, so prepend
-			// it to the read buffer if it is in the appropriate state.
+			// r.curr doesn't have enough data for a full frame. if it already
+			// holds more than the largest allowed frame, the frame can never
+			// fit. this must only consider the incomplete frame and not
+			// whatever complete frames a large read happened to return after
+			// it, otherwise the result would depend on how reads are chunked.
+			if len(r.curr)-maxFrameOverhead > r.opts.MaximumBufferSize {
+				return Packet{}, drpc.ProtocolError.New("data overflow")
+			}
+
+			// prepend it to the read buffer if it is in the appropriate state.
 			if len(r.buf) == 0 {
 				r.buf = append(r.buf[:0], r.curr...)
 			}
@@ -120,10 +128,6 @@ func (r *Reader) ReadPacketUsing(buf []byte) (pkt Packet, err error) {
 				return Packet{}, drpc.ProtocolError.New("data overflow")
 			}
 			r.buf = r.buf[:ncap]
-
-			if len(r.buf)-maxFrameOverhead > r.opts.MaximumBufferSize {
-				return Packet{}, drpc.ProtocolError.New("data overflow")
-			}
 
 			r.curr = r.buf
 			continue
